@@ -245,3 +245,16 @@ theorem world_log_history (H : HashFn) (w : W.World) (is : List W.Inv) (ls : Lis
 theorem logInv_empty : LogInv {} [] [] := ⟨rfl, (fun l hl => by cases hl), rfl⟩
 
 end C11
+
+namespace C11
+
+/-- the conditions on appended records are met by an ordinary record (first commit by `X <x@example.com>`, message `first`) -/
+example : LineSafe ⟨.commit, none, some (List.replicate 20 1), asc "X", asc "x@example.com", 1700000000, 0, asc "first"⟩ ∧
+    Bytes.LineOK (lineOf ⟨.commit, none, some (List.replicate 20 1), asc "X", asc "x@example.com", 1700000000, 0, asc "first"⟩) := by
+  refine ⟨⟨by decide, by decide, by decide, ?_⟩, ?_⟩
+  · intro id hid
+    injection hid with hid; subst hid
+    exact ⟨by decide, by decide +kernel⟩
+  · unfold Bytes.LineOK; decide +kernel
+
+end C11
